@@ -11,15 +11,17 @@
    wf_shape: the record shapes no history produces (checked at every label by the lock-step).
    lenient: the classes where h2 is more lenient than RFC 9113 5.1 demands (see the C09_wire_lenient theorems). *)
 From H2V Require Import Base.Tac Base.Bytes Model.StreamState Ref.Rfc9113Stream Proofs.StreamStateProofs
-  Model.Dispatch Proofs.DispatchRecv Proofs.DispatchTol Proofs.DispatchErr.
+  Model.Dispatch Proofs.DispatchRecv Proofs.DispatchTol Proofs.DispatchErr Proofs.DispatchLenient.
 Local Open Scope N_scope.
 
 (* a received frame changes at most the record of its own stream (for a PUSH_PROMISE: the promised one) and never puts
-   a frame on the wire itself: other streams keep working *)
+   a frame on the wire itself: other streams keep working
+   (same_or_failed: unchanged, or - only when the section discards that stream's queue and the queue holds a PUSH_PROMISE
+   that was never written - the promised stream is failed with it, repair cc6ac6c) *)
 Theorem C09_wire_other_streams_untouched :
   forall st l sid t st' outs,
   recv_frame l = Some (sid, t) -> step st l = Ok st' outs ->
-  (forall k, k <> touched st l -> kget st' k = kget st k) /\ has_emit outs = false.
+  (forall k, k <> touched st l -> same_or_failed st st' k) /\ has_emit outs = false.
 Proof. exact recv_confined. Qed.
 
 (* where RFC 9113 5.1 demands a connection error for a frame on a stream the endpoint has a record of: the result is
@@ -111,3 +113,39 @@ Theorem C09_wire_new_stream_tolerated :
   step st (LRecvHeaders sid eos info o nk) = Ok st' outs ->
   penalised outs = false.
 Proof. exact recv_new_stream_tolerated. Qed.
+
+(* the classes of `lenient` are real: closed witnesses, each satisfying every other hypothesis of
+   C09_wire_conn_error_required_except_known (Proofs/DispatchLenient.v; reproduced on the real crate, replays
+   corpus/dispatch/lenient_*.json) *)
+Theorem C09_wire_conn_error_required_refuted :
+  ~ (forall st l sid t k r st' outs,
+     recv_frame l = Some (sid, t) -> iget st sid = Some (k, r) -> c_recv_max st <? sid = false ->
+     wf_shape (c_role st) sid r = true ->
+     receiver_must_for (is_local_init (c_role st) sid) (fst (pview (c_role st) r)) (snd (pview (c_role st) r)) t = conn_error ->
+     step st l = Ok st' outs ->
+     is_conn_error (result_of outs) = true).
+Proof. exact conn_error_required_refuted. Qed.
+
+Theorem C09_wire_lenient_witnesses :
+  (demands_conn_error st_l1 2 RST_STREAM = true /\ reacts st_l1 (LRecvReset 2 8 robs_ok) = false /\
+   demands_conn_error st_l1 2 WINDOW_UPDATE = true /\ reacts st_l1 (LRecvWindowUpdate 2 wobs_ok) = false) /\
+  (demands_conn_error st_l4 2 HEADERS = true /\ reacts st_l4 (LRecvHeaders 2 false false hobs_ok 9) = false).
+Proof. exact (conj lenient_promise_unsent lenient_headers_on_reserved_local). Qed.
+
+(* the repaired defect 60d7633 (found with this model): the refusal of a PUSH_PROMISE on a locally reset parent named
+   an identifier nobody had checked *)
+Theorem C09_wire_push_refusal_fix_needed :
+  (match old_refusal_arm st_l6 7 with
+   | Ok st1 outs =>
+     result_of outs = RErr (EReset 7 CANCEL Library) /\ not_idle st1 7 = false /\ is_local_init (c_role st1) 7 = true /\
+     match step st1 (LPoll2Reset 7 CANCEL true true 9) with
+     | Ok st2 outs2 => outs_queued outs2 = [(7, 3, false, false, CANCEL)] /\ c_send_next st2 = Some 9
+     | _ => False
+     end
+   | _ => False
+   end) /\
+  (match step st_l6 (LRecvPushPromise 1 7 pobs_ok 9) with
+   | Ok st1 outs => is_conn_error (result_of outs) = true /\ st1 = st_l6
+   | _ => False
+   end).
+Proof. exact push_refusal_fix_needed. Qed.
